@@ -12,6 +12,10 @@ CANON = re.compile(r"^(-?[0-9]+);(-?[0-9]+);(-?[0-9]+);(-?[0-9]+);(-?[0-9]+);([^
 
 
 def jobs(tier, seed):
+    return _jobs(tier, seed) + [{"suite": True}]
+
+
+def _jobs(tier, seed):
     n = 16 if tier == "quick" else 64
     per = 20000 if tier == "quick" else 120000
     return [{"seed": seed, "i": i, "n": per} for i in range(n)]
@@ -195,6 +199,10 @@ def check_uncarriable(res, rng):
 
 def run(job):
     res = Result()
+    if job.get("suite"):
+        run_suite_under_contracts(res)
+        res.evals += 1
+        return res
     rng = core.rng_for("c02", job["seed"], job["i"])
     enums = enum_members()
     subsets = [list(c) for r in range(0, 7) for c in itertools.combinations(FIELDS, r)]
@@ -226,6 +234,9 @@ def replay(case):
     from mysensors.message import Message
 
     mode = case.get("mode")
+    if mode == "suite":
+        run_suite_under_contracts(res)
+        return res
     if mode == "decenc" or mode == "garbage":
         try:
             m = Message(case["line"])
@@ -259,11 +270,47 @@ def finish(agg, tier):
         "rule": "four interleaved generators: (encdec) integer fields from 8..128-bit boundaries / negatives / IntEnum members / "
                 "bools x payloads stratified by Unicode category; (decenc) every int() spelling class (sign, zeros, blanks, "
                 "underscores, Unicode digits) x payload category x line ending; (copy) all 64 replaced-field subsets; (garbage) "
-                "uncarriable input must raise nothing but ValueError. distinct = (mode, spelling/kind classes, payload category, "
+                "uncarriable input must raise nothing but ValueError; plus the repository's own 730 tests run with encode/copy contracts "
+                "(icontract) installed on the real Message class. distinct = (mode, spelling/kind classes, payload category, "
                 "subset); non-trivial when payload non-empty or a spelling/kind is non-canonical.",
         "floors": [("encdec", c.get("encdec", 0), 5000), ("decenc", c.get("decenc", 0), 5000),
-                   ("copy", c.get("copy", 0), 5000), ("copy_subsets_forced", c.get("copy_subsets_forced", 0), 64)],
+                   ("copy", c.get("copy", 0), 5000), ("copy_subsets_forced", c.get("copy_subsets_forced", 0), 64),
+                   ("contract_evaluations:Message.encode", c.get("contract_evaluations:Message.encode", 0), 200),
+                   ("contract_evaluations:Message.copy", c.get("contract_evaluations:Message.copy", 0), 50)],
         "assumptions": ["carriable payload = str without ';', CR, LF and with payload == payload.rstrip()",
                         "integer fields up to 128 bits (Python's 4300-digit int/str limit is out of scope)"],
         "show": ["encdec", "decenc", "copy", "uncarriable_rejected", "uncarriable_decoded"],
     }
+
+
+# ---------------------------------------------------------------------------
+# the repository's own suite as one more workload: run it with the contracts of vf/contracts.py installed
+def run_suite_under_contracts(res, which=("contract:encode", "contract:copy")):
+    import json
+    import os
+    import subprocess
+    import tempfile
+
+    out = tempfile.mktemp(prefix="vf-suite-", suffix=".json")
+    env = dict(os.environ, PYTHONPATH=os.pathsep.join([core.REPO, core.VERIF, core.DEPS]), VF_SUITE_OUT=out,
+               PYTHONDONTWRITEBYTECODE="1")
+    p = subprocess.run([core.PY, "-B", "-m", "pytest", "-q", "-p", "no:cacheprovider", "-p", "vf.suite_plugin", "--timeout=600", "tests"],
+                       cwd=core.REPO, env=env, capture_output=True, text=True, timeout=900)
+    try:
+        with open(out) as fh:
+            rec = json.load(fh)
+    except Exception:
+        res.notes.append(f"suite under contracts produced no record: rc={p.returncode} {p.stdout[-200:]}")
+        return
+    finally:
+        if os.path.exists(out):
+            os.remove(out)
+    res.add_set("contracts_mode", rec.get("mode"))
+    for k, v in rec["evaluations"].items():
+        res.count("contract_evaluations:" + k, v)
+    res.count("suite_runs_under_contracts")
+    if p.returncode != 0:
+        res.notes.append(f"repository suite not green under contracts: {p.stdout.strip().splitlines()[-1:]}")
+    for v in rec["violations"]:
+        if v["sig"].startswith(which):
+            res.violation(v["sig"] + ":in-repo-suite", v["what"], {"mode": "suite", "sig": v["sig"]})
